@@ -223,37 +223,76 @@ def nproc_for(ck):
 
 
 # ----------------------------------------------------------------------------- role A
-def role_a(ck: Check, which: str = "C25"):
-    """The algorithms as transition systems, checked by TLC against the definitions."""
-    t = "t" if ck.tier == "thorough" else "q"
-    t0 = time.time()
-    res = ck.tlc_expect_ok(MODULE, "MC_ArchTree_iter_fixed_%s.cfg" % t, timeout=2400, workers=4,
-                           required_actions=("Grow", "Start", "VisitLeaf", "VisitHier", "VisitFork"))
-    ck.extra.setdefault("phase_wall_s", {})["MC_ArchTree_iter_fixed_%s.cfg" % t] = round(time.time() - t0, 1)
-    msgs = ["iterator that does not append Compute leaves + cost loop that multiplies in the own fanout: "
-            "AllLeavesYielded, YieldedParentsAreAncestors, CostsCorrect, FlattenIsPath (the _flatten recursion as "
-            "coded equals Path), GrowIsPrefixOK, FullIsWF hold on %d states" % res.distinct]
-    bad_parents = ("MC_ArchTree_iter_coded_parents.cfg",
-                   "iterator as coded (appends Compute leaves): YieldedParentsAreAncestors")
-    bad_costs = ("MC_ArchTree_iter_coded_costs.cfg", "iterator + cost loop as coded: CostsCorrect")
-    expect_bad = [bad_parents if which == "C25" else bad_costs]
-    if ck.tier == "thorough":
-        expect_bad += [
-            bad_costs if which == "C25" else bad_parents,
-            ("MC_ArchTree_iter_noown_costs.cfg", "repaired iterator, own fanout still not counted: CostsCorrect"),
-            ("MC_ArchTree_iter_sib_costs.cfg", "own fanout counted, iterator as coded: CostsCorrect"),
-            ("MC_ArchTree_iter_alias.cfg", "any variant, list object read after the iteration: "
-                                           "RetainedParentsAreAncestors"),
-        ]
-    for cfg, what in expect_bad:
-        t0 = time.time()
-        r = ck.tlc(MODULE, cfg, timeout=1200, workers=4)
-        ck.extra.setdefault("phase_wall_s", {})[cfg] = round(time.time() - t0, 1)
-        if r.ok or "is violated" not in (r.violated or ""):
-            raise Machinery("role-A lemma: %s must be violated, but TLC says %s (%s); the model is too weak\n%s"
-                            % (what, "ok" if r.ok else r.violated, cfg, r.tail))
-        msgs.append("%s is violated (counterexample found by TLC)" % what)
-    ck.extra["role_A"] = "; ".join(msgs)
+class RoleA:
+    """The algorithms as transition systems, checked by TLC against the definitions.  The TLC runs
+    are started in a background thread (they do not depend on the generators); `finish` does the
+    bookkeeping and the verdicts in the main thread."""
+
+    def __init__(self, ck: Check, which: str):
+        import threading
+        from harness import tlc as _tlc
+        self.ck = ck
+        t = "t" if ck.tier == "thorough" else "q"
+        bad_parents = ("MC_ArchTree_iter_coded_parents.cfg",
+                       "iterator as coded (appends Compute leaves): YieldedParentsAreAncestors")
+        bad_costs = ("MC_ArchTree_iter_coded_costs.cfg", "iterator + cost loop as coded: CostsCorrect")
+        self.plan = [("MC_ArchTree_iter_fixed_%s.cfg" % t, None),
+                     bad_parents if which == "C25" else bad_costs]
+        if ck.tier == "thorough":
+            self.plan += [
+                bad_costs if which == "C25" else bad_parents,
+                ("MC_ArchTree_iter_noown_costs.cfg", "repaired iterator, own fanout still not counted: CostsCorrect"),
+                ("MC_ArchTree_iter_sib_costs.cfg", "own fanout counted, iterator as coded: CostsCorrect"),
+                ("MC_ArchTree_iter_alias.cfg", "any variant, list object read after the iteration: "
+                                               "RetainedParentsAreAncestors"),
+            ]
+        self.results = []
+        self.error = None
+
+        def work():
+            try:
+                for cfg, _ in self.plan:
+                    t0 = time.time()
+                    r = _tlc.run(MODULE, cfg, workdir=os.path.join(ck.work, "roleA"), workers=4, timeout=2400)
+                    self.results.append((cfg, r, round(time.time() - t0, 1)))
+            except BaseException as e:  # noqa  (re-raised in finish)
+                self.error = e
+
+        self.thread = threading.Thread(target=work, daemon=True)
+        self.thread.start()
+
+    def finish(self):
+        ck = self.ck
+        self.thread.join()
+        if self.error is not None:
+            raise self.error
+        msgs = []
+        for (cfg, what), (_, r, wall) in zip(self.plan, self.results):
+            # the bookkeeping ck.tlc would have done
+            ck.states += r.distinct
+            ck.transitions += r.generated
+            for a, (d, g) in r.coverage.items():
+                k = "%s.%s" % (MODULE, a)
+                old = ck.cov.get(k, [0, 0])
+                ck.cov[k] = [old[0] + d, old[1] + g]
+            ck.tlc_cmds.append(r.cmd)
+            ck.extra.setdefault("phase_wall_s", {})[cfg] = wall
+            if what is None:
+                if not r.ok:
+                    raise Machinery("TLC reports a problem in the design-level run %s: %s\n%s" % (cfg, r.violated, r.tail))
+                for a in ("Grow", "Start", "VisitLeaf", "VisitHier", "VisitFork"):
+                    if r.coverage.get(a, (0, 0))[1] == 0:
+                        raise Machinery("vacuity: action %s was never taken in %s" % (a, cfg))
+                msgs.append("iterator that does not append Compute leaves + cost loop that multiplies in the own "
+                            "fanout: AllLeavesYielded, YieldedParentsAreAncestors, CostsCorrect, FlattenIsPath (the "
+                            "_flatten recursion as coded equals Path), GrowIsPrefixOK, FullIsWF hold on %d states"
+                            % r.distinct)
+            else:
+                if r.ok or "is violated" not in (r.violated or ""):
+                    raise Machinery("role-A lemma: %s must be violated, but TLC says %s (%s); the model is too weak\n%s"
+                                    % (what, "ok" if r.ok else r.violated, cfg, r.tail))
+                msgs.append("%s is violated (counterexample found by TLC)" % what)
+        ck.extra["role_A"] = "; ".join(msgs)
 
 
 def generator_plan(ck: Check, tag: str):
@@ -278,8 +317,8 @@ def generator_plan(ck: Check, tag: str):
 
 def run_generators(ck: Check, tag: str, which: str, sample_fn):
     rp = Replayer(ck, which, nproc_for(ck))
+    ra = RoleA(ck, which)
     try:
-        role_a(ck, which)
         parts = []
         for cfg, kw, exh in generator_plan(ck, tag):
             t0 = time.time()
@@ -296,6 +335,7 @@ def run_generators(ck: Check, tag: str, which: str, sample_fn):
                 ck.sample(sample_fn(r, label), limit=6)
         ck.extra["generators"] = parts
         ck.extra["exhaustive_parts"] = [p["cfg"] for p in parts if p["exhaustive"]]
+        ra.finish()
     finally:
         t0 = time.time()
         rp.collect()
